@@ -28,6 +28,12 @@ structure Cfg.Good (c : Cfg) : Prop where
   pid0 : c.pid0Refused = true
   empty : c.emptyAsksAll = some 1024
   sorted : c.getSortedSet = true
+  /-- getpriority(2) may legitimately return −1: errno must be cleared first and be part of the test -/
+  prio : c.prioGet.clears = true ∧ c.prioGet.test ≠ .sentinelOnly
+  /-- ioprio_get(2) / sched_getaffinity(2) never return −1 on success: testing the return value
+      is enough; testing errno alone needs the clearing -/
+  ioGet : c.ioprioGet.test ≠ .errnoOnly ∨ c.ioprioGet.clears = true
+  affGet : c.affGet.test ≠ .errnoOnly ∨ c.affGet.clears = true
 
 theorem inNativeRange {c : Cfg} (hg : c.Good) {cls data : Int} (h1 : 0 ≤ cls ∧ cls ≤ 3)
     (h2 : 0 ≤ data ∧ data ≤ 7) : outOfNativeRange c.nativeRange cls data = false := by
